@@ -81,8 +81,8 @@ theorem clampMax_pos (n : Int) : 1 ≤ clampMax n := by
 
 /-! ### one step, in closed form -/
 
-theorem stepL_put (i : Bool) (s : LState) (k : Key) (a : Ans) (hm : 1 ≤ s.maxSize) :
-    (stepL i s (.put k a)).1.ring =
+theorem stepL_put (s : LState) (k : Key) (a : Ans) (hm : 1 ≤ s.maxSize) :
+    (stepL s (.put k a)).1.ring =
       { key := k, ans := a, hits := 0, stamp := s.tick + 1 } :: (removeKey s.ring k).take (s.maxSize - 1) := by
   simp only [stepL]
   rw [evictTo_eq_take _ hm]
@@ -111,7 +111,7 @@ theorem ringNodup_cons_removeKey {r r' : List Node} {k : Key} (h : RingNodup r) 
   have := (mem_removeKey.mp (hs.subset hb)).2
   rw [hn]; exact fun e => this e.symm
 
-theorem invL_step (i : Bool) (s : LState) (op : Op) (h : InvL s) : InvL (stepL i s op).1 := by
+theorem invL_step (s : LState) (op : Op) (h : InvL s) : InvL (stepL s op).1 := by
   have hsub := removeKey_sublist s.ring
   cases op with
   | get k =>
@@ -125,13 +125,13 @@ theorem invL_step (i : Bool) (s : LState) (op : Op) (h : InvL s) : InvL (stepL i
       · refine ⟨ringNodup_cons_removeKey h.nodup (List.Sublist.refl _) _ hn.2, h.maxPos, ?_⟩
         exact stampsSorted_cons (stampsSorted_sublist h.stamps (hsub k) (Nat.le_refl _)) _ rfl
   | put k a =>
-    have hr := stepL_put i s k a h.maxPos
+    have hr := stepL_put s k a h.maxPos
     have htake : ((removeKey s.ring k).take (s.maxSize - 1)).Sublist (removeKey s.ring k) := List.take_sublist _ _
     refine ⟨?_, ?_, ?_⟩
     · rw [hr]; exact ringNodup_cons_removeKey h.nodup htake _ rfl
     · simp only [stepL]; exact h.maxPos
     · rw [hr]
-      have : (stepL i s (.put k a)).1.tick = s.tick + 1 := by simp only [stepL]
+      have : (stepL s (.put k a)).1.tick = s.tick + 1 := by simp only [stepL]
       rw [this]
       exact stampsSorted_cons (stampsSorted_sublist h.stamps (htake.trans (hsub k)) (Nat.le_refl _)) _ rfl
   | flush k =>
@@ -142,15 +142,9 @@ theorem invL_step (i : Bool) (s : LState) (op : Op) (h : InvL s) : InvL (stepL i
     exact ⟨List.Pairwise.nil, h.maxPos, List.Pairwise.nil, by simp⟩
   | setMax n =>
     simp only [stepL]
-    cases i with
-    | true =>
-      simp only [if_true]
-      rw [evictTo_eq_take _ (by omega)]
-      have ht : (s.ring.take (clampMax n + 1 - 1)).Sublist s.ring := List.take_sublist _ _
-      exact ⟨h.nodup.sublist ht, clampMax_pos n, stampsSorted_sublist h.stamps ht (by simp)⟩
-    | false =>
-      simp only [Bool.false_eq_true, if_false]
-      exact ⟨h.nodup, clampMax_pos n, stampsSorted_sublist h.stamps (List.Sublist.refl _) (by simp)⟩
+    rw [evictTo_eq_take _ (by omega)]
+    have ht : (s.ring.take (clampMax n + 1 - 1)).Sublist s.ring := List.take_sublist _ _
+    exact ⟨h.nodup.sublist ht, clampMax_pos n, stampsSorted_sublist h.stamps ht (by simp)⟩
   | adv dt =>
     simp only [stepL]
     exact ⟨h.nodup, h.maxPos, stampsSorted_sublist h.stamps (List.Sublist.refl _) (by simp)⟩
@@ -175,17 +169,17 @@ theorem invL_step (i : Bool) (s : LState) (op : Op) (h : InvL s) : InvL (stepL i
 theorem invL_init (n : Int) (t0 : Nat) : InvL (initL n t0) :=
   ⟨List.Pairwise.nil, clampMax_pos n, List.Pairwise.nil, by simp [initL]⟩
 
-theorem invL_run (i : Bool) (s : LState) (ops : List Op) (h : InvL s) : InvL (runL i s ops).1 := by
+theorem invL_run (s : LState) (ops : List Op) (h : InvL s) : InvL (runL s ops).1 := by
   induction ops generalizing s with
   | nil => exact h
-  | cons op rest ih => simp only [runL]; exact ih _ (invL_step i s op h)
+  | cons op rest ih => simp only [runL]; exact ih _ (invL_step s op h)
 
 /-! ### soundness against the timed map: whatever the ring holds is the most recent `put` of that key -/
 
 def RefL (s : LState) (m : TMap) : Prop := ∀ n ∈ s.ring, m n.key = some n.ans
 
-theorem refL_step (i : Bool) (s : LState) (m : TMap) (op : Op) (hm : 1 ≤ s.maxSize) (h : RefL s m) :
-    RefL (stepL i s op).1 (specStep m op) := by
+theorem refL_step (s : LState) (m : TMap) (op : Op) (hm : 1 ≤ s.maxSize) (h : RefL s m) :
+    RefL (stepL s op).1 (specStep m op) := by
   cases op with
   | get k =>
     simp only [stepL, specStep]
@@ -201,7 +195,7 @@ theorem refL_step (i : Bool) (s : LState) (m : TMap) (op : Op) (hm : 1 ≤ s.max
         · exact h x (mem_removeKey.mp hx).1
   | put k a =>
     intro x hx
-    rw [stepL_put i s k a hm] at hx
+    rw [stepL_put s k a hm] at hx
     simp only [specStep]
     rcases List.mem_cons.mp hx with e | hx
     · subst e; simp
@@ -215,12 +209,8 @@ theorem refL_step (i : Bool) (s : LState) (m : TMap) (op : Op) (hm : 1 ≤ s.max
   | flushAll => simp only [stepL, specStep]; intro x hx; cases hx
   | setMax n =>
     simp only [stepL, specStep]
-    cases i with
-    | true =>
-      simp only [if_true]
-      rw [evictTo_eq_take _ (by omega)]
-      exact fun x hx => h x (List.mem_of_mem_take hx)
-    | false => simp only [Bool.false_eq_true, if_false]; exact h
+    rw [evictTo_eq_take _ (by omega)]
+    exact fun x hx => h x (List.mem_of_mem_take hx)
   | adv dt => exact h
   | hits => exact h
   | misses => exact h
@@ -232,28 +222,27 @@ theorem refL_step (i : Bool) (s : LState) (m : TMap) (op : Op) (hm : 1 ≤ s.max
   | reset => exact h
   | snapshot => exact h
 
-theorem refL_run (i : Bool) (s : LState) (m : TMap) (ops : List Op) (hi : InvL s) (h : RefL s m) :
-    RefL (runL i s ops).1 (specRun m ops) := by
+theorem refL_run (s : LState) (m : TMap) (ops : List Op) (hi : InvL s) (h : RefL s m) :
+    RefL (runL s ops).1 (specRun m ops) := by
   induction ops generalizing s m with
   | nil => exact h
   | cons op rest ih =>
     simp only [runL, specRun, List.foldl_cons]
-    exact ih _ _ (invL_step i s op hi) (refL_step i s m op hi.maxPos h)
+    exact ih _ _ (invL_step s op hi) (refL_step s m op hi.maxPos h)
 
 /-! ### the bound -/
 
-theorem length_after_put (i : Bool) (s : LState) (k : Key) (a : Ans) (hm : 1 ≤ s.maxSize) :
-    (stepL i s (.put k a)).1.ring.length ≤ (stepL i s (.put k a)).1.maxSize := by
-  rw [stepL_put i s k a hm]
-  have : (stepL i s (.put k a)).1.maxSize = s.maxSize := by simp only [stepL]
+theorem length_after_put (s : LState) (k : Key) (a : Ans) (hm : 1 ≤ s.maxSize) :
+    (stepL s (.put k a)).1.ring.length ≤ (stepL s (.put k a)).1.maxSize := by
+  rw [stepL_put s k a hm]
+  have : (stepL s (.put k a)).1.maxSize = s.maxSize := by simp only [stepL]
   rw [this]
   simp only [List.length_cons, List.length_take]
   omega
 
-/-- bound preserved by every operation except a shrinking `set_max_size` of the code as shipped -/
-theorem bound_step (i : Bool) (s : LState) (op : Op) (hi : InvL s) (hb : s.ring.length ≤ s.maxSize)
-    (hop : i = true ∨ ∀ n, op = .setMax n → s.maxSize ≤ clampMax n) :
-    (stepL i s op).1.ring.length ≤ (stepL i s op).1.maxSize := by
+/-- the bound is preserved by every operation -/
+theorem bound_step (s : LState) (op : Op) (hi : InvL s) (hb : s.ring.length ≤ s.maxSize) :
+    (stepL s op).1.ring.length ≤ (stepL s op).1.maxSize := by
   have hlen : ∀ k, (removeKey s.ring k).length ≤ s.ring.length := fun k => (removeKey_sublist s.ring k).length_le
   cases op with
   | get k =>
@@ -266,21 +255,13 @@ theorem bound_step (i : Bool) (s : LState) (op : Op) (hi : InvL s) (hb : s.ring.
       split
       · simp only; omega
       · simp only [List.length_cons]; omega
-  | put k a => exact length_after_put i s k a hi.maxPos
+  | put k a => exact length_after_put s k a hi.maxPos
   | flush k => simp only [stepL]; have := hlen k; omega
   | flushAll => simp only [stepL, List.length_nil]; omega
   | setMax n =>
     simp only [stepL]
-    cases i with
-    | true =>
-      simp only [if_true]
-      rw [evictTo_eq_take _ (by omega)]
-      simp only [List.length_take]; omega
-    | false =>
-      simp only [Bool.false_eq_true, if_false]
-      rcases hop with h | h
-      · cases h
-      · have := h n rfl; omega
+    rw [evictTo_eq_take _ (by omega)]
+    simp only [List.length_take]; omega
   | adv dt => exact hb
   | hits => exact hb
   | misses => exact hb
@@ -292,37 +273,23 @@ theorem bound_step (i : Bool) (s : LState) (op : Op) (hi : InvL s) (hb : s.ring.
   | reset => exact hb
   | snapshot => exact hb
 
-/-- no `set_max_size` below the limit in force (decidable guard of `lru_bound_partial`) -/
-def noShrink : Nat → List Op → Bool
-  | _, [] => true
-  | m, .setMax n :: rest => decide (m ≤ clampMax n) && noShrink (clampMax n) rest
-  | m, _ :: rest => noShrink m rest
-
-theorem bound_run (i : Bool) (s : LState) (ops : List Op) (hi : InvL s) (hb : s.ring.length ≤ s.maxSize)
-    (hop : i = true ∨ noShrink s.maxSize ops = true) :
-    (runL i s ops).1.ring.length ≤ (runL i s ops).1.maxSize := by
+theorem bound_run (s : LState) (ops : List Op) (hi : InvL s) (hb : s.ring.length ≤ s.maxSize) :
+    (runL s ops).1.ring.length ≤ (runL s ops).1.maxSize := by
   induction ops generalizing s with
   | nil => exact hb
   | cons op rest ih =>
     simp only [runL]
-    refine ih _ (invL_step i s op hi) (bound_step i s op hi hb ?_) ?_
-    · rcases hop with h | h
-      · exact Or.inl h
-      · right; intro m hm; subst hm
-        simp only [noShrink, Bool.and_eq_true, decide_eq_true_eq] at h; exact h.1
-    · rcases hop with h | h
-      · exact Or.inl h
-      · right
-        cases op <;> simp only [noShrink, Bool.and_eq_true] at h <;> try (simp only [stepL]; exact h)
-        case setMax m => cases i <;> simp [stepL, h.2]
-        case get k =>
-          simp only [stepL]; split
-          · exact h
-          · split <;> exact h
-        case hitsFor k =>
-          simp only [stepL]; split
-          · exact h
-          · split <;> exact h
+    exact ih _ (invL_step s op hi) (bound_step s op hi hb)
 
+/-- `set_max_size` as it was before the repair (no eviction, DESIGN §6 D14): kept only to show that the bound
+theorem depends on the eviction -/
+def stepLOld (s : LState) (op : Op) : LState × Out :=
+  match op with
+  | .setMax n => ({ s with tick := s.tick + 1, maxSize := clampMax n }, .unit)
+  | _ => stepL s op
+
+def runLOld (s : LState) : List Op → LState
+  | [] => s
+  | op :: rest => runLOld (stepLOld s op).1 rest
 
 end Model.Cache
